@@ -219,21 +219,81 @@ def parse_body(body):
             # case / default / } end this block without consuming
             break
         return ('assign', assigns, False)
-    # guarded early returns ahead of the table:  if (<integer condition on the indices>) return <expr>;
-    guards = []
+    # statements ahead of the table: declarations of locals, plain assignments `a = b;`, blocks `if (<integer condition>) { a = b; ... }`
+    # and guarded early returns `if (<integer condition on the indices>) return <expr>;`
+    ops = []
     while True:
         g = GUARD.match(body, pos)
-        if not g:
-            break
-        guards.append((g.group(1).strip(), g.group(2).strip()))
-        pos = g.end()
+        if g:
+            ops.append(('ifreturn', g.group(1).strip(), g.group(2).strip()))
+            pos = g.end()
+            continue
+        d = DECL.match(body, pos)
+        if d:
+            pos = d.end()
+            continue
+        b = IFBLOCK.match(body, pos)
+        if b:
+            inner = [('assign', a_.group(1), a_.group(2).strip()) for a_ in ASSIGN.finditer(b.group(2))]
+            if ASSIGN.sub('', b.group(2)).strip():
+                raise CParseError('unsupported statement inside a conditional block ahead of the table: %r' % b.group(2)[:80])
+            ops.append(('if', b.group(1).strip(), inner))
+            pos = b.end()
+            continue
+        a_ = ASSIGN.match(body, pos)
+        if a_ and not re.match(r'\s*\w+\s*\[', body[pos:]):
+            ops.append(('assign', a_.group(1), a_.group(2).strip()))
+            pos = a_.end()
+            continue
+        break
     node = block()
-    if guards:
-        return ('guard', guards, node)
+    if ops:
+        return ('guard', ops, node)
     return node
 
 
 GUARD = re.compile(r'\s*if\s*\(((?:[^()]|\((?:[^()]|\([^()]*\))*\))*)\)\s*return\s*([^;]*);')
+
+
+DECL = re.compile(r'\s*(?:int|double|long)\s+\w+(?:\s*=\s*[^;,]+)?(?:\s*,\s*\w+(?:\s*=\s*[^;,]+)?)*\s*;')
+ASSIGN = re.compile(r'\s*(\w+)\s*=\s*([^;=][^;]*);')
+IFBLOCK = re.compile(r'\s*if\s*\(((?:[^()]|\((?:[^()]|\([^()]*\))*\))*)\)\s*\{([^{}]*)\}')
+
+
+def run_prologue(ops, ints):
+    """interpret the statements ahead of a table for concrete index values.  -> ('return', exprtext) | ('table', ints', renaming)
+    where `renaming` maps each double-valued name to the parameter whose value it holds after the statements"""
+    ints = dict(ints)
+    ren = {}
+
+    def val(name):
+        return ren.get(name, name)
+
+    def assign(target, rhs):
+        if re.fullmatch(r'[A-Za-z_]\w*', rhs):
+            if rhs in ints:
+                ints[target] = ints[rhs]
+                ren.pop(target, None)
+            else:
+                ints.pop(target, None)
+                ren[target] = val(rhs)
+            return
+        names = set(re.findall(r'[A-Za-z_]\w*', rhs))
+        if names <= set(ints) and re.fullmatch(r'[\w\s()%+\-*]*', rhs):
+            ints[target] = int(eval(rhs, {'__builtins__': {}}, dict(ints)))
+            return
+        raise CParseError('unsupported assignment ahead of the table: %s = %s' % (target, rhs))
+    for op in ops:
+        if op[0] == 'ifreturn':
+            if guard_holds(op[1], ints):
+                return ('return', op[2])
+        elif op[0] == 'assign':
+            assign(op[1], op[2])
+        else:
+            if guard_holds(op[1], ints):
+                for _, t_, r_ in op[2]:
+                    assign(t_, r_)
+    return ('table', ints, ren)
 
 
 def switch_vars(node):
@@ -277,11 +337,14 @@ class CTables:
         """polynomial returned by `name` for the given integer switch arguments (in switch nesting order)"""
         fname, ret, args, node = self.funcs[name]
         idx = list(idx)
+        renaming = {}
         if node[0] == 'guard':
-            env = dict(zip(switch_vars(node[2]), idx))
-            for cond, txt in node[1]:
-                if guard_holds(cond, env):
-                    return parse_expr(txt, self.literals) if txt else None
+            names = switch_vars(node[2])
+            kind, *rest = run_prologue(node[1], dict(zip(names, idx)))
+            if kind == 'return':
+                return parse_expr(rest[0], self.literals) if rest[0] else None
+            idx = [rest[0][v] for v in names]
+            renaming = {k_: v_ for k_, v_ in rest[1].items() if k_ != v_}
             node = node[2]
         while node[0] == 'switch':
             k = idx.pop(0)
@@ -295,7 +358,16 @@ class CTables:
         if node[0] == 'return':
             if node[1] is None:
                 return None
-            return parse_expr(node[1], self.literals)
+            p = parse_expr(node[1], self.literals)
+            if renaming:
+                # the statements ahead of the table re-bound some parameters: simultaneous substitution by way of fresh names
+                from .poly import Poly
+                used = [v for v in renaming if v in p.vars()]
+                for v in used:
+                    p = p.subs(v, Poly.var('__' + v))
+                for v in used:
+                    p = p.subs('__' + v, Poly.var(renaming[v]))
+            return p
         raise CParseError('entry(): %s does not end in return' % name)
 
     def vector(self, name, *idx):
